@@ -187,7 +187,7 @@ fn initial_driver(_ctx: &RunCtx, stats: &mut Stats, rep: &mut Reporter) {
 pub fn property() -> Property {
     Property {
         id: "C08",
-        rule: "positions: valid positions (12 sources): Board::from_fen(b.as_fen()) equals b in all six fields and in derived state; the text \
+        rule: "positions: valid positions (17 sources): Board::from_fen(b.as_fen()) equals b in all six fields and in derived state; the text \
                passes a strict canonical-FEN reader written independently (six fields, single spaces, no adjacent digits, KQkq order, plain \
                decimal counters) which must yield the reference position, and equals the reference writer's text. raw_boards: unvalidated \
                boards (5 sources) with a rank-consistent mark round-trip through RawBoard. texts: grammar-built FEN variants ('.' cells, \
